@@ -65,7 +65,13 @@ def gen(seed: int, tier: str) -> dict[str, Any]:
                     b["d"] = rng.choice([0.5, 0.999, 1.0, 1.0005, 1.2, 1.9, 2.5])
                 if k in ("dup", "stale+ack", "foreign+ack"):
                     b["d"] = rng.choice([0.0, 0.0005, 0.2, 0.6, 0.999, 1.0005, 1.5])
+                if k == "error":
+                    # any KNXnet/IP error code, e.g. E_SEQUENCE_NUMBER for a repetition whose first ACK was lost
+                    b["status"] = rng.choice([0x29, 0x04, 0x04, 0x21, 0x24, 0x01, 0xFF])
                 acks.append(b)
+                if k in ("none", "late", "stale", "foreign", "future") and rng.random() < 0.35:
+                    # the repetition of an unacknowledged request is answered with an error status
+                    acks.append({"k": "error", "status": rng.choice([0x04, 0x04, 0x29, 0x21])})
             else:
                 acks.append(None)
         if rng.random() < 0.5:
